@@ -46,6 +46,7 @@ theorem flattenP_spec (st : ParamStyle) (n : Nat) (d : Doc) :
     | num c x => cases c <;> simp [flattenPAux, withHoles, isColl, collected, payload, ih]
     | kw s => simp [flattenPAux, withHoles, isColl, collected, payload, ih]
     | ident q s => simp [flattenPAux, withHoles, isColl, collected, payload, ih]
+    | aliasRef q s => simp [flattenPAux, withHoles, isColl, collected, payload, ih]
     | aliasDef q a s => simp [flattenPAux, withHoles, isColl, collected, payload, ih]
     | raw s => simp [flattenPAux, withHoles, isColl, collected, payload, ih]
     | err s => simp [flattenPAux, withHoles, isColl, collected, payload, ih]
@@ -62,6 +63,7 @@ theorem count_agree (st : ParamStyle) (d : Doc) :
     | num c x => cases c <;> simp [collected, payload, isColl, List.filter] at * <;> omega
     | kw s => simpa [collected, payload, isColl, List.filter] using ih
     | ident q s => simpa [collected, payload, isColl, List.filter] using ih
+    | aliasRef q s => simpa [collected, payload, isColl, List.filter] using ih
     | aliasDef q a s => simpa [collected, payload, isColl, List.filter] using ih
     | raw s => simpa [collected, payload, isColl, List.filter] using ih
     | err s => simpa [collected, payload, isColl, List.filter] using ih
@@ -94,6 +96,7 @@ theorem fill_inline (st : ParamStyle) (d : Doc) : substitute d (flattenP st d).2
     | num c x => cases c <;> simp [substitute, isColl, collected, payload, literalAt, Piece.text, ih]
     | kw s => simp [substitute, isColl, collected, payload, ih]
     | ident q s => simp [substitute, isColl, collected, payload, ih]
+    | aliasRef q s => simp [substitute, isColl, collected, payload, ih]
     | aliasDef q a s => simp [substitute, isColl, collected, payload, ih]
     | raw s => simp [substitute, isColl, collected, payload, ih]
     | err s => simp [substitute, isColl, collected, payload, ih]
